@@ -134,12 +134,13 @@ Definition hazard_free (ks : list rtok) : bool := hz (map rtyb ks).
      forbidden_next c / hd_okb   after the one-byte token c the next byte must not complete a
                    longer operator, a comment opener or a heredoc opener
      tail_okb b t  all three, for a token with bytes b followed by t
-     tl_ty         types only the string scanner emits (QuotedLit, CQuote, "${", "%{")
+     tl_ty         types only the string / heredoc scanners emit (QuotedLit, CQuote, StringLit,
+                   CHeredoc, "${", "%{")
      opener_okb    "${" / "%{" without "~" is not followed by "~"
      layout_okb    the whole condition on a writer-token list, SpacesBefore >= 0
-   FormatBytesProofs.relex_exact_nohd: for clean sources without heredocs this condition
+   FormatBytesProofs.relex_exact_clean: for every source that lexes cleanly this condition
    on format's output implies that the output lexes back to exactly the formatted writer
-   tokens; FormatBytesProofs.layout_of_format_nohd: format establishes it when the source
+   tokens; FormatBytesProofs.layout_of_format_clean: format establishes it when the source
    has none of the hazard patterns above. *)
 
 Definition num_byte (c : Z) : bool := is_digit c || (c =? 46) || (c =? 101) || (c =? 69).
@@ -205,7 +206,8 @@ Definition simple (ks : list rtok) : bool := forallb (fun k => simple_ty (k_ty k
 Definition spaces (n : Z) : list Z := repeatZ 32 (Z.to_nat n).
 
 Definition tl_ty (t : Z) : bool :=
-  (t =? TokenQuotedLit) || (t =? TokenCQuote) || (t =? TokenTemplateInterp) || (t =? TokenTemplateControl).
+  (t =? TokenQuotedLit) || (t =? TokenCQuote) || (t =? TokenTemplateInterp) || (t =? TokenTemplateControl)
+  || (t =? TokenStringLit) || (t =? TokenCHeredoc).
 
 Definition nohd_ty (t : Z) : bool := clean_ty t && negb (t =? TokenOHeredoc).
 
@@ -224,6 +226,7 @@ Fixpoint layout_okb (out : list tok) : bool :=
       (0 <=? sp x) &&
       (if tl_ty (ty x) then (sp x =? 0) && (negb (is_tmpl_open (ty x)) || opener_okb (bytes x) (write f))
        else tail_okb (bytes x) (write f)) &&
+      (negb (ty x =? TokenCHeredoc) || match f with y :: _ => sp y =? 0 | [] => true end) &&
       layout_okb f
   end.
 
@@ -234,9 +237,9 @@ Definition w_dots : list Z := [120; 32; 61; 32; 97; 46; 32; 46; 32; 46; 98; 10].
 Definition w_tilde : list Z := [120; 32; 61; 32; 34; 36; 123; 32; 126; 125; 34; 10].
 
 
-(* the full byte-level statement this development aims at (NOT proved in general):
-   every source that lexes cleanly and has none of the three hazard patterns is
-   re-lexed from the formatter's output to exactly the formatted writer tokens *)
+(* the full byte-level statement (proved: FormatBytesProofs.relex_exact_hazard_free):
+   every source that lexes cleanly and has none of the hazard patterns is re-lexed from
+   the formatter's output to exactly the formatted writer tokens *)
 Definition relex_exact_hazard_free_stmt : Prop :=
   forall g data ks, lex_main data = Some ks -> lexes_clean ks = true -> hazard_free ks = true ->
   exists ks', relex (format (writer_tokens g 0 ks)) = Some ks' /\
